@@ -1,6 +1,8 @@
 """C14 - a malformed member costs only itself (necessary conditions only)."""
 from absint import *
 import cfg
+import re
+from mirlib import callee_info
 import common_g
 
 
@@ -59,8 +61,109 @@ def run(ctx, rep):
     c12.run(ctx, r12)
     bad = [v for v in r12.violations if v.rule == "H7"]
     rep.check(not bad, "R6", "C14|R6|validate-all", bad[0].where if bad else None, bad[0].message if bad else "Parser::validate = validation::validate(collect_item_keys(), all results)")
+    tree_kept_rule(ctx, rep, "C14", "R8")
+    rep.rule("H3", "inherits C12 H3 (re-evaluated here): what add_content stores for an id is the parse of the text just given - a fresh diagnostics vector, the parser's tree - "
+                   "so every syntax Error of the result stems from this text's malformed member (nothing is carried over from the content the id held before)")
+    c12.add_content_rule(ctx, rep, "C14", "H3")
     rep.assumptions += ["TB-2 lalrpop_util's recovery algorithm (drops tokens until the error production can be followed by the lookahead)", "TB-1/TB-4 for R1, R2"]
     rep.not_decided += ["malformed members longer than the bound of rule R5, and documents outside its frames (R5 explores a model of the parser - exported automaton + transcription of lalrpop_util's recovery loop - not the generated code)"]
+
+
+# std callees that may receive a `&mut` to (part of) the tree: they hand out references / iterate, they never add, drop or move nodes
+TREE_ACCESSORS = ("::deref_mut", "::iter_mut", "::as_mut", "::as_mut_slice", "::as_deref_mut", "::get_mut", "::first_mut", "::last_mut", "::index_mut", "::into_iter", "::by_ref")
+# the two writes validation is meant to perform on a tree (C05: resolution result, C10: oneway propagation)
+TREE_WRITES = {("kind", "ast::Type"), ("oneway", "ast::Method")}
+
+
+def owns_tree(ty):
+    """the type holds tree nodes by value (possibly behind the outermost &mut): `&mut Vec<ast::Method>` yes, `HashMap<String, &ast::Import>` no"""
+    t = ty[4:].lstrip() if ty.startswith("&mut") else ty
+    t = re.sub(r"&(?:'\w+ )?(?:mut )?ast::\w+", "", t)     # nodes held by reference are not owned
+    return re.search(r"\bast::(?!Range\b|Position\b|AndroidTypeKind\b|ResolvedItemKind\b|TypeKind\b|Direction\b)\w", t) is not None
+
+
+def strip_havoc(l):
+    """the value a label denotes before opaque callees were allowed to write through it"""
+    while isinstance(l, tuple) and l and l[0] in ("havoc", "mut"):
+        l = l[2] if l[0] == "havoc" else l[1]
+    return l
+
+
+def tree_kept_rule(ctx, rep, prop, rule):
+    """R8: validation returns the tree the parser stored - same nodes, same order; it only fills in Type.kind and Method.oneway.
+    (a) the per-file closure's result carries Some(<the stored tree>) on every path with a tree (tabulated);
+    (b) inventory over everything reachable from validation::validate: every store into a field of a tree node, every store of a
+        whole node through a reference, and every std call that receives `&mut` to an owned part of the tree."""
+    import pipeline
+    import dataflow
+    facts = ctx.mir
+    rep.rule(rule, "the tree survives validation with every member: the per-file closure returns Some(the stored tree) (only havoc'ed by resolve_types / set_up_oneway_interface); "
+                   "in everything reachable from validation::validate the only stores into tree nodes are Type.kind and Method.oneway, and `&mut` access to owned parts of the tree "
+                   "goes to reference-yielding accessors only (iter_mut, deref_mut, as_mut, get_mut, iterator protocol) - no retain / remove / truncate / sort / swap / take / replace / push")
+    clo, paths = pipeline.tabulate(facts)
+    fclo = facts.fns[clo]
+    n_tree = 0
+    for i, p in enumerate(paths):
+        r = p.ret
+        ok = isinstance(r, AdtVal) and r.ty == "tuple" and isinstance(r.fields[1].val, AdtVal)
+        det = None
+        if ok:
+            res = r.fields[1].val
+            names = [fl["name"] for fl in facts.adts["parser::ParseFileResult"]["variants"][0]["fields"]]
+            ai = names.index("ast")
+            l = lab(res.fields[ai].val) if ai in res.fields else (join_label(res.label, "ast") if res.label is not None else None)
+            det = fmt_label(l)[:200]
+            has_tree = any(pipeline.norm(c) == ("variant", "fr.ast") and v == "Some" for c, v in p.conds)
+            if has_tree:
+                n_tree += 1
+                ok = isinstance(l, tuple) and l[:3] == ("adt", "std::option::Option", "Some") and strip_havoc(dict(l[3])[0]) == pipeline.AST
+            else:
+                ok = l == ("adt", "std::option::Option", "None", ()) or base_label(l) == "fr.ast"
+        rep.check(ok, rule, "%s|%s|result|path%d" % (prop, rule, i), cfg.where(fclo),
+                  "per-file closure, path %d: the result must carry Some(the tree stored by the parser) - the same value that went through the pipeline, not a rebuilt or filtered one; extracted ast = %s" % (i, det),
+                  sample={"path": i, "ast": det})
+    rep.floor(rule, "paths with a tree whose result was compared", n_tree, 3)
+    reach, _ = dataflow.reachable_fns(facts, ["validation::validate"])
+    n_sites = 0
+    for pth in sorted(reach):
+        f = facts.fns[pth]
+        body = f["body"]
+        for b in body["blocks"]:
+            for st in b["stmts"]:
+                if st["k"] != "assign":
+                    continue
+                lhs = st["lhs"]
+                flds = [(pr.get("name"), pr.get("of")) for pr in lhs["p"] if pr["k"] == "field"]
+                node_flds = [fo for fo in flds if fo[1] and owns_tree(fo[1])]
+                through_ref = any(pr["k"] == "deref" for pr in lhs["p"])
+                whole = through_ref and not flds and owns_tree(lhs["ty"])
+                if not node_flds and not whole:
+                    continue
+                n_sites += 1
+                okw = bool(node_flds) and node_flds[-1] in TREE_WRITES and flds[-1] == node_flds[-1]
+                what = ".".join("%s(%s)" % fo for fo in flds) if flds else "*(%s)" % lhs["ty"]
+                rep.check(okw, rule, "%s|%s|store|%s|%s" % (prop, rule, pth, what), cfg.where(f, st),
+                          "%s writes %s of the tree during validation: only Type.kind (resolution) and Method.oneway (propagation) may be written - any other store can drop, replace or reorder members" % (pth, what),
+                          sample={"fn": pth, "store": what})
+            t = b["term"]
+            if t["k"] != "call":
+                continue
+            ci = callee_info(t)
+            if ci is None:
+                continue
+            name = ci.get("resolved") or ci["def"]
+            if name in facts.fns:
+                continue    # a function of the crate: in `reach`, inspected itself
+            for a in t["args"]:
+                ty = a["place"]["ty"] if a["k"] in ("copy", "move") else a["c"]["ty"]
+                if not (ty.startswith("&mut") and owns_tree(ty)):
+                    continue
+                n_sites += 1
+                oka = name.endswith(TREE_ACCESSORS) or "std::iter::Iterator::" in name or name.endswith(" as std::iter::Iterator>::next") or "as std::iter::IntoIterator>::into_iter" in name
+                rep.check(oka, rule, "%s|%s|call|%s|%s" % (prop, rule, pth, name), cfg.where(f, t),
+                          "%s passes `%s` (an owned part of the tree, mutably) to %s: validation may reach into the tree only through reference-yielding accessors; a call that can add, drop, move or reorder nodes breaks \"every well-formed sibling appears in order and unchanged\"" % (pth, ty, name),
+                          sample={"fn": pth, "callee": name, "arg": ty})
+    rep.floor(rule, "tree stores / mutable tree accesses inventoried", n_sites, 8)
 
 
 SAMPLE = {"IDENT": "x", "INTEGER": "1", "FLOAT": "1.5", "QUOTED_STRING": '"s"', "ANNOTATION": "@x", "DIRECTION": "in", "PRIMITIVE": "int", "BOOLEAN": "true", "RESERVED_KEYWORD": "for",
